@@ -876,6 +876,7 @@ bool CWallet::EncryptWallet(const SecureString& strWalletPassphrase)
         if (!encrypted_batch->TxnBegin()) {
             delete encrypted_batch;
             encrypted_batch = nullptr;
+            mapMasterKeys.erase(nMasterKeyMaxID--);
             return false;
         }
         if (!encrypted_batch->WriteMasterKey(nMasterKeyMaxID, master_key)) {
